@@ -706,10 +706,12 @@ func ruleNoHeap(c *Ctx) []Ob {
 					}
 				}
 			}
+			// an expression of this very function (the compiled file has it at the reported column) is not a callee's site
+			own := ownExprAt(st.l.file, st.l.line, st.l.col, st.l.msg)
 			for _, b := range st.fn.Blocks {
 				for _, ins := range b.Instrs {
 					call, ok := ins.(*ssa.Call)
-					if !ok || !call.Pos().IsValid() {
+					if !ok || !call.Pos().IsValid() || own {
 						continue
 					}
 					p := c.Fset.Position(call.Pos())
@@ -812,6 +814,33 @@ func heapKind(msg string) string {
 		return "moved"
 	}
 	return "escapes"
+}
+
+// ownExprAt: the compiler's verdict names an expression that is written at the reported position of the compiled file (a
+// composite literal, make, new, a variable), as opposed to the heap site of an inlined callee, which is reported at the call.
+func ownExprAt(file string, line, col int, msg string) bool {
+	b, err := os.ReadFile(file)
+	if err != nil {
+		return false
+	}
+	ls := strings.Split(string(b), "\n")
+	if line-1 >= len(ls) || col-1 > len(ls[line-1]) || col < 1 {
+		return false
+	}
+	expr := msg
+	for _, cut := range []string{" escapes to heap", " does not escape"} {
+		if i := strings.Index(expr, cut); i >= 0 {
+			expr = expr[:i]
+		}
+	}
+	if strings.HasPrefix(expr, "moved to heap") {
+		return true
+	}
+	if i := strings.IndexAny(expr, "{("); i >= 0 {
+		expr = expr[:i+1]
+	}
+	expr = strings.TrimSpace(expr)
+	return expr != "" && strings.HasPrefix(ls[line-1][col-1:], expr)
 }
 
 func srcAt(c *Ctx, file string, line int) string {
